@@ -160,8 +160,9 @@ void harness(void)
 /* ---------------- the real parse_options under an arbitrary option sequence ---------------- */
 #include <string.h>
 char *optarg; int optind = 1;
+uint8_t sym_optch[NOPT], sym_optarg[NOPT][ARGLEN + 1]; int sym_nfiles;
 typedef struct { char ch; char arg[ARGLEN + 1]; } opt_t;
-opt_t sym_opts[NOPT]; int sym_nfiles;
+static opt_t sym_opts[NOPT];
 static int opt_i;
 int getopt(int argc, char *const argv[], const char *spec) { (void)argc; (void)argv; (void)spec; if (opt_i >= NOPT) { optind = 1 + 2 * NOPT; return -1; } optarg = sym_opts[opt_i].arg; return sym_opts[opt_i++].ch; }
 #include "options.c"
@@ -180,7 +181,8 @@ static int spec_hex(uint8_t *buf, unsigned max, const char *s)   /* -1 invalid, 
 void harness(void)
 {
     HARNESS_BEGIN();
-    SYM_BYTES(sym_opts, sizeof sym_opts); SYM_VAL(sym_nfiles);
+    SYM_U8A(sym_optch); for (int i = 0; i < NOPT; i++) { SYM_U8A(sym_optarg[i]); } SYM_VAL(sym_nfiles);
+    for (int i = 0; i < NOPT; i++) { sym_opts[i].ch = (char)sym_optch[i]; for (int j = 0; j <= ARGLEN; j++) sym_opts[i].arg[j] = (char)sym_optarg[i][j]; }
     for (int i = 0; i < NOPT; i++) { sym_opts[i].arg[ARGLEN] = 0; ASSUME(sym_opts[i].ch == 'b' || sym_opts[i].ch == 'k' || sym_opts[i].ch == 't' || sym_opts[i].ch == 'c' || sym_opts[i].ch == 'd' || sym_opts[i].ch == '?'); }
     ASSUME(sym_nfiles >= 0 && sym_nfiles <= 3);
     char *argv[1 + 2 * NOPT + 4]; char prog[] = "tool", f1[] = "in", f2[] = "out", f3[] = "x";
